@@ -20,6 +20,9 @@ class C02(SessionCheck):
             data = bytes(rng.randrange(256) for _ in range(n))
             script = [rng.choice([1, 2, 3, 7, n or 1, 0, -1, 5000]) for _ in range(rng.randint(0, 8))]
             out.append({'kind': 'write', 'data': data.hex(), 'script': script, 'base11': rng.random() < 0.5})
+        # under 1.1 framing ANY octet sequence is payload, also the 1.0 end-of-message marker and chunk-header look-alikes
+        for i, d in enumerate([b'<a><!-- ]]>]]> --></a>', b']]>]]>', b'<x k="]]>]]>"/>\n##\n', b'\n#12\n<y/>\n##\n', b'<z>]]>]]>]]>]]></z>']):
+            out.append({'kind': 'write', 'data': d.hex(), 'script': [rng.choice([3, 1000, 7])] * 40, 'base11': True})
         # payloads whose UTF-8 length sits on and around powers of two (implementations that cut messages into chunks or blocks
         # meet their boundaries there), written in a few large pieces
         for n in (4095, 4096, 4097, 65535, 65536, 65537, 131072, 196608):
